@@ -193,12 +193,47 @@ def class_behaviour(rng, alg, fam, pattern):
             cmds.append("hsubw %d 1 %d %d %d e" % (c, bufid + c, c * 11, rng.randrange(1, B)))
         for c in range(k):
             cmds.append("hsubw %d 2 %d %d %d e" % (c, bufid + c, 7000 + c * 11, rng.choice([2 * B, 3 * B + 1, B + B // 2])))
+    elif pattern == "longlane":     # one lane holds a single segment of >= 2^31 bytes while the others turn over short jobs
+        if L < 2:
+            return class_behaviour(rng, alg, fam, "equal")
+        a = rng.randrange(L)
+        b = (a + rng.choice([1, 2, 4, 8, 16, L // 2, L - 1])) % L
+        if b == a:
+            b = (a + 1) % L
+        return longlane_behaviour(rng, alg, fam, a, b)
     cmds.append("hdrain %d" % (L + 34))
     cmds.append("hend")
     return cmds
 
 
-CLASS_PATTERNS = ["equal", "minlane", "flushk", "stream1", "reuse", "drainreuse", "threetrip"]
+def longlane_behaviour(rng, alg, fam, a, b, biglen=None, drain=False):
+    """the a-th submit is one segment of >= 2^31 bytes (its lane's length word has the top bit set in the managers that keep
+    bytes or blocks<<k in 32 bits), the b-th is the strictly shortest job; the manager is then kept full by further short
+    submits so that many minimum searches run with the long lane present. The long job is never finished (no drain): the
+    verdict is on the short jobs handed back."""
+    L = lanes(alg, fam)
+    B = BLOCK[alg]
+    bufid = rng.randrange(2, 1 << 20)
+    biglen = biglen or rng.choice([1 << 31, (1 << 31) + B + 3, (1 << 32) - 1, (1 << 32) - B])
+    extra = 6
+    cmds = ["hmgr %s %s %d" % (alg, fam, L + extra)]
+    for c in range(L):
+        if c == a:
+            ln = biglen
+        elif c == b:
+            ln = B + B // 2     # one whole block straight from the (guarded) user buffer, the rest buffered
+        else:
+            ln = (2 + (c * 7) % 5) * B + c
+        cmds.append("hsub %d 3 %d %d %d e" % (c, bufid + c, c * 257, ln))
+    for c in range(L, L + extra):
+        cmds.append("hsub %d 3 %d %d %d e" % (c, bufid + c, c * 257, (1 + c % 3) * B + 1))
+    if drain:                   # finishes the long job too (2 GiB through one lane)
+        cmds.append("hdrain %d" % (L + extra + 4))
+    cmds.append("hend")
+    return cmds
+
+
+CLASS_PATTERNS = ["equal", "minlane", "flushk", "stream1", "reuse", "drainreuse", "threetrip", "longlane"]
 
 
 def job_behaviour(rng, alg, fam):
